@@ -78,6 +78,30 @@ def run(ctx):
         if pn in reach:
             ctx.ob('C18.R2', f'producer-reaches-reduce_hint:{pn}', 'beartype/_check/convert/convmain.py:0',
                    f'{pn} transitively calls reduce_hint (so overrides and the tower apply to what it returns)', reach[pn], '')
+    # every value a child producer returns derives from the sanified child (never the raw hint it fetched)
+    for q, (mm, fn) in sorted(cg.funcs.items()):
+        if fn.name not in ('get_hint_pep484585_subclass_hint_child_sanified',):
+            continue
+        sane = set()
+        changed = True
+        while changed:
+            changed = False
+            for a in ast.walk(fn):
+                if isinstance(a, ast.Assign) and isinstance(a.targets[0], ast.Name) and a.targets[0].id not in sane:
+                    v = a.value
+                    from_sanify = any(isinstance(c, ast.Call) and ((isinstance(c.func, ast.Attribute) and c.func.attr.startswith('sanify_hint'))
+                                                                   or (dotted(c.func) or '').startswith('sanify_hint')) for c in ast.walk(v))
+                    from_sane = any(isinstance(x, ast.Name) and x.id in sane for x in ast.walk(v))
+                    if from_sanify or from_sane:
+                        sane.add(a.targets[0].id)
+                        changed = True
+        for r in [x for x in walk_shallow(fn) if isinstance(x, ast.Return) and x.value is not None]:
+            v = r.value
+            ok = (isinstance(v, ast.Name) and (v.id in sane or repo.resolve_expr(mm, v).kind == 'builtin')) or isinstance(v, ast.Constant)
+            ctx.ob('C18.R2', f'producer-returns-sanified:{fn.name}:{norm(v)[:40]}', mm.where(r),
+                   f'{fn.name} returns a value derived from the sanified child (or a constant)', ok,
+                   f'`return {norm(v)[:60]}` hands on a hint that never went through sanify_hint_child: overrides and the '
+                   f'numeric tower are not applied to it')
     n = 0
     for mn, mm in sorted(repo.modules.items()):
         if not mn.startswith('beartype._check'):
@@ -139,6 +163,7 @@ def run(ctx):
     ctx.ob('C18.R3', 'tower:merged-into-overrides', om.where(sf),
            'the expansion is merged into (not substituted for) the user overrides', ok, norm(st[0])[:100] if st else '')
 
+    _tower_merge(ctx, om, sf)
     tm2 = repo.mod('beartype._conf.conftest')
     sk = tm2.defs.get('sanify_conf_kwargs')
     ctx.require(sk is not None, 'anchor vanished: sanify_conf_kwargs')
@@ -248,3 +273,51 @@ def _dict_filled_from(fn, dict_name, producers):
             if isinstance(key, ast.Name) and 'sane' in key.id:
                 return 'dictionary of sanified children'
     return None
+
+
+def _tower_merge(ctx, om, sf):
+    """sanify_conf_kwargs_is_pep484_tower, interpreted over the abstract states of the user's hint_overrides."""
+    from sa.fold import AObj, FuncVal, Sym, _Abort, _PyCallable, _Raise, _call_function
+    from . import _gen
+    F = _gen.engines(ctx)[0].f
+    fn = F.const('beartype._conf._confoverrides', 'sanify_conf_kwargs_is_pep484_tower')
+    ctx.require(isinstance(fn, FuncVal), 'anchor vanished: sanify_conf_kwargs_is_pep484_tower')
+    FLOAT, COMPLEX = Sym('builtin', 'float'), Sym('builtin', 'complex')
+    TF, TC, OTHER, X, Y = 'float|int', 'complex|float|int', 'something-else', 'UserClass', 'UserClass|Legacy'
+
+    class AFrozen(dict):
+        def __or__(self, o):
+            return AFrozen({**self, **o})
+        __hash__ = object.__hash__
+    tower = AFrozen({FLOAT: TF, COMPLEX: TC})
+    saved = dict(F.stubs)
+    F.stubs['beartype._conf._confoverrides._hint_overrides_pep484_tower'] = lambda e, a, k: tower
+    states = {
+        'none': {}, 'float-as-tower': {FLOAT: TF}, 'complex-as-tower': {COMPLEX: TC}, 'both-as-tower': {FLOAT: TF, COMPLEX: TC},
+        'unrelated': {X: Y}, 'unrelated+float-as-tower': {X: Y, FLOAT: TF},
+        'float-conflict': {FLOAT: OTHER}, 'complex-conflict': {COMPLEX: OTHER},
+    }
+    try:
+        for nm, user in states.items():
+            kw = {'hint_overrides': AFrozen(user), 'is_pep484_tower': True}
+            raised = None
+            try:
+                _call_function(F, fn, [kw], {}, 1)
+            except _Raise as ex:
+                raised = getattr(ex.what, 'name', str(ex.what))
+            except _Abort as ex:
+                ctx.require(False, f'cannot interpret sanify_conf_kwargs_is_pep484_tower: {ex}')
+            if nm.endswith('conflict'):
+                ok = raised == 'BeartypeConfParamException'
+                detail = f'raised {raised}; overrides afterwards {dict(kw["hint_overrides"])}'
+            else:
+                want = {**user, FLOAT: TF, COMPLEX: TC}
+                got = dict(kw['hint_overrides'])
+                ok = raised is None and got == want
+                detail = f'raised {raised}; hint_overrides afterwards: {sorted(str(k) + "→" + str(v) for k, v in got.items())}'
+            ctx.ob('C18.R3', f'tower-merge:user-overrides={nm}', om.where(sf),
+                   'with is_pep484_tower the resulting overrides are the user\'s plus float → float | int and complex → '
+                   'complex | float | int (a conflicting user entry for float / complex is rejected)', ok, detail)
+    finally:
+        F.stubs.clear()
+        F.stubs.update(saved)
